@@ -80,7 +80,8 @@ def wide_specs(tier):
 
 
 def boundary_specs(tier):
-    extra = [{"mix": "boundary-full", "seed": SEED * 100 + 50, "events": 0}, {"mix": "boundary-long", "seed": SEED * 100 + 51, "events": 0}]
+    extra = [{"mix": "boundary-full", "seed": (SEED * 100 + 50) // 2 * 2, "events": 0}, {"mix": "boundary-full", "seed": (SEED * 100 + 50) // 2 * 2 + 1, "events": 0},
+             {"mix": "boundary-long", "seed": SEED * 100 + 51, "events": 0}]
     if tier == "quick":
         return [{"mix": "boundary", "seed": SEED * 100 + k, "events": 0} for k in range(4)] + extra
     return (extra + [{"mix": "boundary", "seed": SEED * 100 + k, "events": 0} for k in range(8)]
@@ -121,6 +122,20 @@ def check_property(prop, tier):
         except Exception as e:  # noqa
             v.cov["parts"].append({"part": "tlaps:StampLemmas", "what": "extra; not run", "error": str(e)[:300]})
 
+    plain_kinds = set()
+
+    def origin_findings(r, how):
+        """C13: what differs ONLY because the arena came to be in another way (capacity, clear, clone, default) is a C13 matter,
+        whatever property the difference itself belongs to"""
+        out = []
+        for f in r["findings"]:
+            if f["prop"] != "C13" and (f["prop"], f["kind"]) not in plain_kinds:
+                g = dict(f)
+                g["prop"] = "C13"
+                g["detail"] = "[only on an arena %s; on Arena::new() the same calls conform] %s" % (how, f["detail"])
+                out.append(g)
+        return out
+
     if prop in OUT_PROPS:
         for cfg in bundle_cfgs:
             path, meta = ensure_bundles(cfg)
@@ -137,6 +152,7 @@ def check_property(prop, tier):
                     flags += ["--pulls", "--detable", det + ".plain"]
                 r = run_replay(b, path, flags, "%s-%s-%s" % (prop, cfg, profile))
                 add_replay(v, r, meta, "every call enabled in every reachable model state, %s build" % profile, [prop])
+                plain_kinds.update((f["prop"], f["kind"]) for f in r["findings"])
                 if prop in ("C01", "C02", "C12"):
                     mon = run_monitor(r["states_file"], "%s-%s" % (cfg, profile))
                     add_monitor(v, mon, r["states_file"], "%s-%s" % (cfg, profile),
@@ -147,6 +163,10 @@ def check_property(prop, tier):
             add_replay(v, r, meta, "payload type with identity and destructor; every case rebuilt from its call path", ["C08"])
             r = run_replay(build_harness("debug"), path, ["--after-clear", "--no-observers", "--no-lookups"], "C08-after-clear")
             add_replay(v, r, meta, "every bundle replayed again after an arbitrary earlier history followed by clear() (payload read-back in histories containing clear)", ["C08", "C13"])
+        if prop == "C07":
+            path, meta = ensure_bundles(bundle_cfgs[0])
+            r = run_replay(build_harness("debug"), path, ["--clone-bisim", "--no-observers", "--no-lookups"], "C07-clone-from")
+            add_replay(v, r, meta, "slot accounting of an arena that was overwritten by clone_from (a free list carried over from the destination's earlier life would lose or duplicate slots)", ["C07"])
         if prop == "C13":
             path, meta = ensure_bundles(bundle_cfgs[0])
             r = run_replay(build_harness("debug"), path, ["--after-clear", "--no-observers", "--no-lookups"], "C13-after-clear")
@@ -155,8 +175,10 @@ def check_property(prop, tier):
             add_replay(v, r, meta, "a third of the calls of every state applied to a second original rebuilt from the path: same result, == arena, same reusable slots as on the clone", ["C13"])
             r = run_replay(build_harness("debug"), path, ["--with-capacity", "7", "--no-observers", "--no-lookups"], "C13-with-capacity")
             add_replay(v, r, meta, "every bundle replayed on Arena::with_capacity(7)", ["C13"])
+            v.add_findings(origin_findings(r, "created by with_capacity(7)"), "replay:C13-with-capacity")
             r = run_replay(build_harness("release"), path, ["--origin-mix", "--no-observers", "--no-lookups"], "C13-origin")
             add_replay(v, r, meta, "every bundle replayed (release build) on an empty arena that came to be in another way (new / default / with_capacity(0) / clone of an empty arena / filled and cleared / new + reserve / with_capacity(600) / cleared + reserve(1100)), in rotation; reserve(k) with absurd k must not return normally without the room", ["C13"])
+            v.add_findings(origin_findings(r, "that came to be in another way (default / with_capacity / clone / clear / reserve, incl. capacities of 600 and 1100)"), "replay:C13-origin")
 
     if prop in ("C09", "C10", "C11"):
         for cfg in bundle_cfgs:
